@@ -11,7 +11,7 @@ from codemodder.codemods.utils_mixin import NameResolutionMixin
 from codemodder.codetf import ChangeSet
 from codemodder.dependency import Dependency
 from codemodder.dependency_management.base_dependency_writer import DependencyWriter
-from codemodder.diff import create_diff_from_tree
+from codemodder.diff import create_diff, split_lines
 from codemodder.file_context import FileContext
 
 
@@ -23,7 +23,8 @@ class SetupPyWriter(DependencyWriter):
     def add_to_file(
         self, dependencies: list[Dependency], dry_run: bool = False
     ) -> Optional[ChangeSet]:
-        input_tree = self._parse_file()
+        source = self._read_file()
+        input_tree = cst.parse_module(source)
         wrapper = cst.MetadataWrapper(input_tree)
         file_context = FileContext(self.parent_directory, self.path, [], [], [])
 
@@ -38,7 +39,7 @@ class SetupPyWriter(DependencyWriter):
         if codemod.line_num_changed is None:
             return None
 
-        diff = create_diff_from_tree(input_tree, output_tree)
+        diff = create_diff(split_lines(source), split_lines(output_tree.code))
 
         if not dry_run:
             with open(self.path, "w", encoding="utf-8", newline="") as f:
@@ -53,10 +54,10 @@ class SetupPyWriter(DependencyWriter):
             changes=changes,
         )
 
-    def _parse_file(self):
+    def _read_file(self) -> str:
         # newline="" keeps the line endings of the file as they are
         with open(self.path, encoding="utf-8", newline="") as f:
-            return cst.parse_module(f.read())
+            return f.read()
 
 
 class SetupPyAddDependencies(SimpleCodemod, NameResolutionMixin):
